@@ -67,6 +67,14 @@ pub fn run(text: &str) {
                     None => println!("K {} ERR", name),
                 }
             }
+            "vcos" => {
+                let n: usize = t[3].parse().unwrap();
+                let d: u64 = t[4].parse().unwrap();
+                match verif::vanishing_over_coset(n, d) {
+                    Some(r) => out(name, &r),
+                    None => println!("K {} ERR", name),
+                }
+            }
             "bary" => {
                 let n: usize = t[3].parse().unwrap();
                 let p = fr_of_hex(t[4]);
